@@ -33,7 +33,7 @@ from typing import (
 )
 
 from pdfminer.encodingdb import name2unicode
-from pdfminer.pdfexceptions import PDFException, PDFTypeError
+from pdfminer.pdfexceptions import PDFException, PDFTypeError, PDFValueError
 from pdfminer.psexceptions import PSEOF, PSSyntaxError
 from pdfminer.psparser import KWD, PSKeyword, PSLiteral, PSStackParser, literal_name
 from pdfminer.utils import choplist, nunpack
@@ -189,12 +189,15 @@ class FileUnicodeMap(UnicodeMap):
         assert isinstance(cid, int), str(type(cid))
         if isinstance(code, PSLiteral):
             # Interpret as an Adobe glyph name.
-            assert isinstance(code.name, str)
+            if not isinstance(code.name, str):
+                raise PDFTypeError(code)
             unichr = name2unicode(code.name)
         elif isinstance(code, bytes):
             # Interpret as UTF-16BE.
             unichr = code.decode("UTF-16BE", "ignore")
         elif isinstance(code, int):
+            if not 0 <= code <= 0x10FFFF:
+                raise PDFValueError(code)
             unichr = chr(code)
         else:
             raise PDFTypeError(code)
@@ -338,21 +341,29 @@ class CMapParser(PSStackParser[PSKeyword]):
             return
 
         if token is self.KEYWORD_DEF:
-            try:
-                ((_, k), (_, v)) = self.pop(2)
-                self.cmap.set_attr(literal_name(k), v)
-            except PSSyntaxError:
-                pass
+            objs = self.pop(2)
+            if len(objs) == 2:
+                try:
+                    ((_, k), (_, v)) = objs
+                    self.cmap.set_attr(literal_name(k), v)
+                except PSSyntaxError:
+                    pass
             return
 
         if token is self.KEYWORD_USECMAP:
-            try:
-                ((_, cmapname),) = self.pop(1)
-                self.cmap.use_cmap(CMapDB.get_cmap(literal_name(cmapname)))
-            except PSSyntaxError:
-                pass
-            except CMapDB.CMapNotFound:
-                pass
+            objs = self.pop(1)
+            if len(objs) == 1:
+                try:
+                    ((_, cmapname),) = objs
+                    used = CMapDB.get_cmap(literal_name(cmapname))
+                    if isinstance(used, CMap) or not isinstance(self.cmap, CMap):
+                        self.cmap.use_cmap(used)
+                    else:
+                        self._warn_once("The used CMap has no code map.")
+                except PSSyntaxError:
+                    pass
+                except CMapDB.CMapNotFound:
+                    pass
             return
 
         if token is self.KEYWORD_BEGINCODESPACERANGE:
@@ -440,12 +451,17 @@ class CMapParser(PSStackParser[PSKeyword]):
                     for cid, unicode_value in zip(range(start, end + 1), code):
                         self.cmap.add_cid2unichr(cid, unicode_value)
                 else:
-                    assert isinstance(code, bytes)
+                    if not isinstance(code, bytes):
+                        self._warn_once("The code object is not a byte or a list.")
+                        continue
                     var = code[-4:]
                     base = nunpack(var)
                     prefix = code[:-4]
                     vlen = len(var)
                     for i in range(min(end - start + 1, self.MAX_RANGE)):
+                        if base + i > 0xFFFFFFFF:
+                            self._warn_once("The code of a range exceeds 32 bits.")
+                            break
                         x = prefix + struct.pack(">L", base + i)[-vlen:]
                         self.cmap.add_cid2unichr(start + i, x)
             return
